@@ -186,7 +186,7 @@ func vfYield()                 { runtime.Gosched() }
 func vfCensus() int            { return 0 }
 func vfCensusList() string     { return "" }
 func vfHarnessGoroutine()      {}
-func vfArmTimers()             {}
+func vfArmTimers(on bool)      {}
 func vfNote(s string)          {}
 func vfItoa(x int64) string    { return strconv.FormatInt(x, 10) }
 func vfIfaceEq(a, b any) bool  { return a == b }
